@@ -430,7 +430,9 @@ def disp5(ctx) -> List[Ob]:
             cfg = ctx.cfg(cg_fn)
             defs = [d for d in cfg.reaching_defs(c, t.id) if d.stmt is not None]
             if defs and all(isinstance(d.stmt, ast.Assign) for d in defs):
-                srcs = [strip_cast(d.stmt.value) for d in defs]
+                from .common import expand_aliases
+
+                srcs = [expand_aliases(ctx, cg_fn, strip_cast(d.stmt.value)) for d in defs]
                 if any("tree" in A.unparse(s) for s in srcs):
                     consumer = (c, t.id, defs)
                     break
@@ -439,6 +441,8 @@ def disp5(ctx) -> List[Ob]:
     if consumer is None:
         raise AnalysisError("no ast.If(test, ...) built from the block's last instruction found in the code generator")
     call, var, defs = consumer
+    from .common import expand_aliases
+
     universe = sorted(prod_classes | {"Expr"})
     if var is None:
         # test used directly: as-is for every class
@@ -455,7 +459,7 @@ def disp5(ctx) -> List[Ob]:
                 break
         if chain_if is None:
             if len(stmts) == 1:
-                mapping = {K: _test_shape(stmts[0].value) for K in universe}
+                mapping = {K: _test_shape(expand_aliases(ctx, cg_fn, stmts[0].value)) for K in universe}
                 subject = ""
             else:
                 raise AnalysisError("cannot locate the test that selects how the branch test is unwrapped")
@@ -471,7 +475,7 @@ def disp5(ctx) -> List[Ob]:
                     mapping[K] = "unknown"
                     continue
                 asg = [s for s in A.walk_no_nested(ast.Module(reached[0].body, [])) if isinstance(s, ast.Assign) and any(isinstance(t, ast.Name) and t.id == var for t in s.targets)]
-                mapping[K] = _test_shape(asg[0].value) if asg else "unknown"
+                mapping[K] = _test_shape(expand_aliases(ctx, cg_fn, asg[0].value)) if asg else "unknown"
     where = ctx.where(cg_fn, call)
     for K in universe:
         want = "unwrap" if K == "Expr" else "as-is"
@@ -704,11 +708,16 @@ def disp7(ctx) -> List[Ob]:
                 hparams = [p.arg for p in h.params if p.arg != "self"]
                 bp = hparams[-1] if hparams else "block"
                 reads = {n.attr for n in A.walk_no_nested(h.node) if isinstance(n, ast.Attribute) and isinstance(n.value, ast.Name) and n.value.id == bp}
+                eff_ = _effective_nodes(r, h)
+                for nd_ in eff_[1:]:
+                    # a delegate reads the block through its own parameter names
+                    pn_ = {a_.arg for a_ in nd_.args.args} - {"self", "digraph", "name"}
+                    reads |= {n.attr for n in A.walk_no_nested(nd_) if isinstance(n, ast.Attribute) and isinstance(n.value, ast.Name) and n.value.id in pn_}
                 reads |= {"tree"} if "get_tree" in reads else set()
                 missing = req - reads
                 if K.name == "RegionBlock" and "subregion" in reads:
                     # the cluster must recurse into render_block for the members
-                    if not method_calls(h.node, rb.name):
+                    if not any(method_calls(nd_, rb.name) for nd_ in eff_):
                         missing = missing | {"<recursion into render_block>"}
                 if missing:
                     out.append(bad("DISP-7", h.qualname, key, where, f"handler for {K.name} never reads {sorted(missing)}: the label / cluster omits that payload"))
@@ -723,7 +732,21 @@ def disp7(ctx) -> List[Ob]:
     for lp in loops:
         attr = lp.iter.attr
         edge_calls = [c for c in method_calls(lp, "edge")]
-        dashed = any(any(k.arg == "style" and isinstance(k.value, ast.Constant) and k.value.value == "dashed" for k in c.keywords) for c in edge_calls)
+        def _dashed(c_) -> bool:
+            for k in c_.keywords:
+                if k.arg == "style" and isinstance(k.value, ast.Constant) and k.value.value == "dashed":
+                    return True
+                if k.arg is None:
+                    from .common import see_through
+
+                    d_ = see_through(ctx, re_, k.value) if isinstance(k.value, ast.Name) else k.value
+                    if isinstance(d_, ast.Dict) and any(isinstance(kk, ast.Constant) and kk.value == "style" and isinstance(vv, ast.Constant) and vv.value == "dashed" for kk, vv in zip(d_.keys, d_.values)):
+                        return True
+                    if isinstance(d_, ast.Call) and isinstance(d_.func, ast.Name) and d_.func.id == "dict" and any(k2.arg == "style" and isinstance(k2.value, ast.Constant) and k2.value.value == "dashed" for k2 in d_.keywords):
+                        return True
+            return False
+
+        dashed = any(_dashed(c) for c in edge_calls)
         seen[attr] = (lp, bool(edge_calls), dashed)
     for attr, want_dashed in (("jump_targets", False), ("backedges", True)):
         key = f"edges over {attr}"
@@ -902,12 +925,21 @@ def disp8(ctx) -> List[Ob]:
     subj, arms = chains[0]
     is_sub = prog_is_sub(prog)
 
+    # a local that *is* the block's entry of the table: `entry = {..}; blocks[key] = entry` (either order)
+    entry_aliases: Set[str] = set()
+    for s_ in A.walk_no_nested(td.node):
+        if isinstance(s_, ast.Assign) and len(s_.targets) == 1:
+            if isinstance(s_.targets[0], ast.Subscript) and isinstance(s_.value, ast.Name) and not isinstance(s_.targets[0].slice, ast.Constant):
+                entry_aliases.add(s_.value.id)
+            if isinstance(s_.targets[0], ast.Name) and isinstance(s_.value, ast.Subscript) and isinstance(s_.value.value, ast.Name) and not isinstance(s_.value.slice, ast.Constant):
+                entry_aliases.add(s_.targets[0].id)
+
     def written_keys(arm_body) -> Dict[str, ast.AST]:
         ks: Dict[str, ast.AST] = {}
         for s in A.walk_no_nested(ast.Module(arm_body, [])):
             if isinstance(s, ast.Assign) and len(s.targets) == 1 and isinstance(s.targets[0], ast.Subscript):
                 t = s.targets[0]
-                if isinstance(t.slice, ast.Constant) and isinstance(t.slice.value, str) and isinstance(t.value, ast.Subscript):
+                if isinstance(t.slice, ast.Constant) and isinstance(t.slice.value, str) and (isinstance(t.value, ast.Subscript) or (isinstance(t.value, ast.Name) and t.value.id in entry_aliases)):
                     ks[t.slice.value] = s.value
         return ks
 
@@ -958,7 +990,9 @@ def disp8(ctx) -> List[Ob]:
     # (d'') the writer descends into every region and writes a canonical member list
     for arm in arms:
         if arm.test is not None and "RegionBlock" in _named_classes(arm.test):
-            ext = [c for c in A.walk_no_nested(ast.Module(arm.body, [])) if isinstance(c, ast.Call) and isinstance(c.func, ast.Attribute) and c.func.attr in ("extend", "update", "append") and c.args and ".subregion.graph" in A.unparse(c.args[0])]
+            from .common import expand_aliases
+
+            ext = [c for c in A.walk_no_nested(ast.Module(arm.body, [])) if isinstance(c, ast.Call) and isinstance(c.func, ast.Attribute) and c.func.attr in ("extend", "update", "append") and c.args and ".subregion.graph" in A.unparse(expand_aliases(ctx, td, c.args[0]))]
             key = "writer descends into regions"
             if ext:
                 out.append(ok("DISP-8", td.qualname, key, ctx.where(td, ext[0]), f"work-list extended with {A.unparse(ext[0].args[0])[:50]}"))
@@ -1120,6 +1154,26 @@ def disp9(ctx) -> List[Ob]:
     return out
 
 
+def _effective_nodes(r, h, skip=("render_block",), depth: int = 2) -> list:
+    """the handler's function node plus the nodes of the methods it delegates to on self (`self._helper(..)`,
+    resolved in the renderer class r, so template-method hooks overridden in r are the ones seen)"""
+    out = [h.node]
+    seen = {h.qualname}
+    frontier = [h]
+    for _ in range(depth):
+        nxt = []
+        for f in frontier:
+            for c in A.walk_no_nested(f.node):
+                if isinstance(c, ast.Call) and isinstance(c.func, ast.Attribute) and isinstance(c.func.value, ast.Name) and c.func.value.id == "self" and c.func.attr not in skip:
+                    m = r.find_method(c.func.attr)
+                    if m is not None and m.qualname not in seen and not (c.func.attr.startswith("render_") and c.func.attr != f.name and not c.func.attr.startswith("render_region")):
+                        seen.add(m.qualname)
+                        out.append(m.node)
+                        nxt.append(m)
+        frontier = nxt
+    return out
+
+
 @rule("DISP-10", 12, "every render path draws: each dispatch arm calls its handler with (digraph, name, block) in order, each handler draws exactly one node (or a cluster that recurses), each renderer has its own fresh Digraph and renders every block and then the edges")
 def disp10(ctx) -> List[Ob]:
     out: List[Ob] = []
@@ -1158,8 +1212,9 @@ def disp10(ctx) -> List[Ob]:
             key = f"{r.name}.{mname} draws"
             where = ctx.where(h)
             if "region" in mname:
-                withs = [w for w in A.walk_no_nested(h.node) if isinstance(w, ast.With) and any(isinstance(i.context_expr, ast.Call) and isinstance(i.context_expr.func, ast.Attribute) and i.context_expr.func.attr == "subgraph" for i in w.items)]
-                rec = [c for c in method_calls(h.node, rb.name)]
+                eff = _effective_nodes(r, h)
+                withs = [w for nd in eff for w in A.walk_no_nested(nd) if isinstance(w, ast.With) and any(isinstance(i.context_expr, ast.Call) and isinstance(i.context_expr.func, ast.Attribute) and i.context_expr.func.attr == "subgraph" for i in w.items)]
+                rec = [c for nd in eff for c in method_calls(nd, rb.name)]
                 okc = withs and rec and any(any(a is withs[0] for a in A.ancestors(c)) for c in rec)
                 cluster_named = withs and any("cluster_" in A.unparse(i.context_expr) for i in withs[0].items)
                 if okc and cluster_named:
